@@ -1729,7 +1729,10 @@ Qed.
 End KeyLemmas.
 
 Lemma depvars_ok_canon G m : depvars_ok G m -> depvars_ok G (model_canon G (blank G m)).
-Proof. destruct m as [n d ps rv st es [cols p se mt] vt dv ot ie]. intros D kv Hin. apply D. exact Hin. Qed.
+Proof.
+  destruct m as [n d ps rv st es [cols p se mt] vt dv ot ie]. intros D kv Hin. apply D. cbn in *.
+  eapply Permutation_in; [apply (sort_by_perm (depvar_key G) str_leb dv) | exact Hin].
+Qed.
 
 (* equal keys (same data) => the two models, put in the encoding order, have the same JSON image *)
 Lemma key_sound_lemma G (GOK : engine_ok G) dumps digest (H : string -> digest) ds m m' :
@@ -1878,3 +1881,59 @@ Proof.
   unfold cs_ok in W, W'. apply andb_true_iff in W, W'. destruct W as [W _], W' as [W' _].
   apply (cs_canon_unique G GOK); assumption.
 Qed.
+
+(* ------------------------------------------------------------------------------------------ *)
+(* the mappings of a model: == (order blind) => the same sorted encoding                       *)
+(* ------------------------------------------------------------------------------------------ *)
+Section MappingOrder.
+Context {A B : Type} (keqb : A -> A -> bool) (veqb : B -> B -> bool).
+Hypothesis keqb_ok : forall a b, keqb a b = true <-> a = b.
+Hypothesis veqb_eq : forall a b, veqb a b = true -> a = b.
+
+Lemma alookup_Some_In (l : list (A * B)) k v : alookup keqb k l = Some v -> In (k, v) l.
+Proof.
+  induction l as [|[k' v'] tl IH]; cbn; [discriminate|]. destruct (keqb k k') eqn:E; intros H.
+  - apply keqb_ok in E. subst. injection H as H. subst. left. reflexivity.
+  - right. apply IH. exact H.
+Qed.
+
+Lemma map_eqb_perm (a b : list (A * B)) : NoDup (map fst a) -> map_eqb keqb veqb a b = true -> Permutation a b.
+Proof.
+  intros ND E. unfold map_eqb in E. apply andb_true_iff in E. destruct E as [L E]. apply Nat.eqb_eq in L.
+  apply NoDup_Permutation_bis; [apply NoDup_map_fst_pairs; exact ND | lia |].
+  intros [k v] Hin. rewrite forallb_forall in E. specialize (E _ Hin). cbn in E.
+  destruct (alookup keqb k b) as [v'|] eqn:F; [|discriminate]. apply veqb_eq in E. subst v'.
+  apply alookup_Some_In. exact F.
+Qed.
+End MappingOrder.
+
+Section ContentOrder.
+Variable G : engine.
+Hypothesis GOK : engine_ok G.
+Variable dumps : pyv -> string.
+Variable digest : Type.
+Variable H : string -> digest.
+
+(* the key sees neither the order in which a system was built nor the order in which the
+   dependent variables / observation transformations were entered *)
+Lemma key_content_order_blind ds m l' dv' ot' :
+  forallb (stmt_ok G) (m_statements G m) = true -> forallb (stmt_ok G) l' = true ->
+  forallb (stmt_names_distinct G) (m_statements G m) = true ->
+  NoDup (map fst (m_depvars G m)) -> NoDup (map (depvar_key G) (m_depvars G m)) ->
+  NoDup (map fst (m_obstrans G m)) -> NoDup (map (obstrans_key G) (m_obstrans G m)) ->
+  stmts_eq G (m_statements G m) l' = true ->
+  map_eqb (expr_eqb G) Z.eqb (m_depvars G m) dv' = true ->
+  map_eqb (expr_eqb G) (expr_eqb G) (m_obstrans G m) ot' = true ->
+  key G dumps digest H ds (with_content G m l' dv' ot') = key G dumps digest H ds m.
+Proof.
+  intros A B N D1 D2 O1 O2 E Ed Eo. apply key_same_dict.
+  destruct m as [n d ps rv st es [cols p se mt] vt dv ot ie]. cbn [m_statements m_depvars m_obstrans] in *.
+  unfold model_encode, model_canon, blank, with_content. cbn -[sort_by].
+  rewrite (stmts_canon_unique G GOK st l' A B N E).
+  rewrite (sort_by_unique (depvar_key G) str_leb str_leb_total str_leb_trans str_leb_antisym dv dv').
+  - rewrite (sort_by_unique (obstrans_key G) str_leb str_leb_total str_leb_trans str_leb_antisym ot ot'); [reflexivity | | exact O2].
+    apply (map_eqb_perm (expr_eqb G) (expr_eqb G) (expr_eqb_ok G GOK) (expr_eqb_eq G GOK)); assumption.
+  - apply (map_eqb_perm (expr_eqb G) Z.eqb (expr_eqb_ok G GOK)); [intros a b X; apply Z.eqb_eq; exact X | exact D1 | exact Ed].
+  - exact D2.
+Qed.
+End ContentOrder.
